@@ -372,7 +372,9 @@ export function dashToCamel(s) {
 /** The key under which the runtime receives an attribute (used to avoid generating duplicates). */
 export function normalizedAttrKey(fam, name) {
   switch (fam) {
-    case 'plain': return 'r:' + name
+    // (on a component a plain attribute is camel-cased by the runtime: `a-b` and `model:a-b` would set the same property,
+    //  the later one in source order winning; such pairs are not generated)
+    case 'plain': return 'r:' + dashToCamel(name)
     case 'model': return 'r:' + dashToCamel(name)
     case 'data-': return 'd:' + dashToCamel(name.toLowerCase())
     case 'data:': return 'd:' + name
